@@ -391,6 +391,11 @@ def handle (S : Session) (toks : List String) : Session × String :=
       let (d, o) := expandBlock S.ctx S.diag sz
       ({ S with diag := d }, showOutcome o ++ " " ++ dumpDiag d)
     | none => bad
+  | "BLOCKX" :: maa :: opt :: sz :: clean => match optNat sz with
+    | some sz =>
+      let (d, o, left) := expandBlockX S.ctx S.diag { checkMaa := maa == "1", optSrc := opt == "1", szLimit := sz } (clean.map (· == "1"))
+      ({ S with diag := d }, showOutcome o ++ " " ++ dumpDiag d ++ (if left.isEmpty then "" else " LEFTOVER"))
+    | none => bad
   | ["DFS", st, lv, sz] => match st.toNat?, optNat lv, optNat sz with
     | some st, some lv, some sz =>
       let (d, o) := expandDfs S.ctx S.diag st lv sz
